@@ -1078,11 +1078,16 @@ class Executor:
         for g, f in ((c, f1), (simp(z3.Not(c)), f2)):
             n = len(state.pc)
             state.pc.append(g)
+            if self.spec_mode:
+                self.quant_facts.append(g)      # visible to old(...) sub-evaluations and definedness obligations
             try:
                 r = f()
             except _Abort:
                 state.pc = state.pc[:n] + [simp(z3.Not(g))]
                 continue
+            finally:
+                if self.spec_mode:
+                    self.quant_facts.pop()
             new = state.pc[n + 1:]
             state.pc = state.pc[:n] + [z3.Implies(g, x) for x in new]
             res.append((g, r))
